@@ -111,6 +111,13 @@ impl Runner {
                 self.poisoned = true;
             } else {
                 problems.push(("model".into(), format!("{}: {}", op_kind(op), msg)));
+                // a refusal the model did not expect is still a refusal: it must not have changed the bytes
+                if let (Some(before), true) = (&before, st.outcome.is_refusal()) {
+                    let after = self.live.snapshot();
+                    if &after != before {
+                        problems.push(("refusal".into(), format!("{} returned {} (no effect expected) but changed the image (len {} -> {})", op_kind(op), st.outcome.short(), before.len(), after.len())));
+                    }
+                }
             }
             self.desync = true;
             return StepReport { outcome: st.outcome, problems };
